@@ -11,7 +11,7 @@ from ..rules import fwd, dim, fresh, inv, posbound, prog
 from ..rules.defuse import DefUse
 from ..rules.exc import ExcEngine
 from ..rules.util import callee_name, cfg_of, lin_str, linear, nodes_where
-from ..tables import INV_EXCEPTIONS
+from ..tables import INV_EXCEPTIONS, INV_RENDER_EXCEPTIONS
 
 EXPLANATION = (
     "Decided (necessary structural conditions of C20): (1) WRITER: every store to _trim_top made while rendering (_adjust_trim_top) is a clamped form - ensure_bounds(.) whose body is "
@@ -23,6 +23,7 @@ EXPLANATION = (
     "lower view scrolls over); (5) thumb geometry is computed only from queries made with the size the wrapped widget is drawn at (ow_size), never the ScrollBar's own size."
     " Added after seed round 3: every return of Scrollable.render comes after _adjust_trim_top() (the position reported is 0 when the content fits); a constant top part is stored only under a test that the thumb leaves room; (8) FOCUS-FWD on the scrolling protocol (ListBox.get_scrollpos -> calculate_visible); (9) ScrollBar remembers for keypress()/mouse_event() exactly the size handed to the wrapped widget's render()."
     ' Round 4: (10) ListBox.get_first_visible_pos returns a count obtained by walking get_prev(), never a walker position, and positions are never tested for being integers; (11) Scrollable.render returns the untrimmed canvas only when it fits in both directions.'
+    ' Round-4 triage: (3, extended) the relative-mode total is raised to position + visible amount before the maximum position is derived from it; (12) INV-RENDER - when rendering moves / clamps the position for the size at hand, the canvases cached for other sizes are dropped (shared with C06.9).'
 )
 NOT_DECIDED = "0 <= position <= total - height after every history as a value statement, thumb monotonicity, rounding of the thumb, wheel handling, relative-scroll estimates."
 ASSUMPTIONS = []
@@ -484,6 +485,7 @@ def run(ctx: Ctx):
         rule_slice_translation(ctx),
         dim.run_dim(p, "C20.3a", [MOD], floor=8, exceptions={}, description="no cols/rows confusion in scrollable.py"),
         posbound.run_posbound(p, "C20.3b", [MOD], floor=1),
+        inv.run_inv_render_write(p, "C20.12", floor=3, exceptions=INV_RENDER_EXCEPTIONS, only_classes={"Scrollable"}),
         rule_scrollbar_parts(ctx),
         rule_forwarding(ctx),
         rule_query_size(ctx),
@@ -498,6 +500,7 @@ def run(ctx: Ctx):
 
 _F = "urwid/widget/scrollable.py"
 MUTANTS = [
+    Mut("scrollable-position-moved-without-invalidate", "urwid/widget/scrollable.py", "Scrollable._adjust_trim_top", "        if self._trim_top != old_trim_top:\n            # canvases cached for other sizes show the old position\n            self._invalidate()\n", "", "INV-RENDER|widget.scrollable.Scrollable._adjust_trim_top"),
     Mut("scrollbar-estimate-not-raised-to-pos-plus-visible", "urwid/widget/scrollable.py", "ScrollBar.render", "ow_len = max(ow_len, pos + visible_amount)", "ow_len = max(ow_len, visible_amount, pos)", "PAIR|widget.scrollable.ScrollBar.render|posmax"),
     Mut("twin-scrollbar-estimate-respelled", "urwid/widget/scrollable.py", "ScrollBar.render", "ow_len = max(ow_len, pos + visible_amount)", "ow_len = max(visible_amount + pos, ow_len)", twin=True),
     Mut("first-visible-pos-returns-position", "urwid/widget/listbox.py", "ListBox.get_first_visible_pos", "        over = 0\n        _widget, first_pos = self.body.get_prev(first_pos)", "        if isinstance(first_pos, int):\n            return first_pos\n\n        over = 0\n        _widget, first_pos = self.body.get_prev(first_pos)", "KIND|widget.listbox.ListBox.get_first_visible_pos"),
